@@ -329,6 +329,20 @@ Definition revealed_of (bv : list N) : list Z := revealed_from (rev bv) 0.
 (* make([]T, 0, cap) panics on a negative capacity *)
 Definition make_cap (cap : Z) (site : N) : gout := if (cap <? 0)%Z then GPanic site else GPass.
 
+(* verifyVC2Proof:  for i := range pubKey.h { if _, ok := revealed[i]; ok { ... messages[ind] ...; ind++ } }
+   over the generators of the announced message count, the verifier's messages indexed by a running counter *)
+Definition zmem (i : Z) (l : list Z) : bool := existsb (Z.eqb i) l.
+Fixpoint vc2_walk (is : list Z) (revealed : list Z) (nmsgs ind : nat) : gout :=
+  match is with
+  | [] => GPass
+  | i :: r => if zmem i revealed
+              then (if (ind <? nmsgs)%nat then vc2_walk r revealed nmsgs (S ind) else GPanic 58)   (* messages[ind] *)
+              else vc2_walk r revealed nmsgs ind
+  end.
+Definition zrange (n : nat) : list Z := map Z.of_nat (seq 0 n).
+Definition verify_vc2 (count : Z) (revealed : list Z) (nmsgs : Z) : gout :=
+  vc2_walk (zrange (Z.to_nat count)) revealed (Z.to_nat nmsgs) 0.
+
 (* BBSG2Pub.VerifyProof up to the pairing check.  nmsgs: number of messages the verifier was handed;
    key_ok: the public key unmarshals; pts: point parsing verdicts. *)
 Definition verify_proof (v : variant) (pts : nat -> bool) (key_ok : bool) (nmsgs : Z) (b : list N) : gout :=
@@ -341,7 +355,8 @@ Definition verify_proof (v : variant) (pts : nat -> bool) (key_ok : bool) (nmsgs
       lib key_ok >>>
       check (nmsgs <? nrev)%Z 57 >>>
       (* GetBytesForChallenge: make([]byte, 0, (7 + count - nrev) * 96) *)
-      make_cap ((7 + (count - nrev)) * 96) 23)).
+      make_cap ((7 + (count - nrev)) * 96) 23 >>>
+      verify_vc2 count revealed nmsgs)).
 
 (* ProofG1.Verify: sumOfG1Products indexes the responses by the bases *)
 Definition proof_g1_verify (v : variant) (nbases nresp : nat) : gout :=
